@@ -395,5 +395,8 @@ PROPS["C09"]["rules"] = PROPS["C09"]["rules"] + [rules_gr.rule_probe_tag]
 PROPS["C09"]["rules"] = PROPS["C09"]["rules"] + [rules_gr.rule_axis_stride]
 PROPS["C09"]["explanation"] += " (AXISUSE) in the axis loops of GRreadimage and GRwriteimage an offset advanced once per iteration over count[A] takes its stride factor from stride[A]. (CRDRV, PROBETAG) see C15."
 
+PROPS["C03"]["rules"] = PROPS["C03"]["rules"] + [rules_sd.rule_contiguity_full_extent]
+PROPS["C03"]["explanation"] += " (CONTIG) the test that lets NCvcmaxcontig merge a dimension into a contiguous run compares the edge with the whole dimension, independently of the start coordinate."
+
 NOT_APPLICABLE = {}
 
